@@ -41,7 +41,49 @@ fn limits_for(ctx: &mut Ctx, src: &str) {
     }
 }
 
+/// Histories: ONE compiler `Parser` value reused for several `parse_*` calls (documents, types, field sets), with both
+/// limits set; after every call the reported figures must be those of that call alone ("during the last call"), i.e.
+/// the high-water marks of `apollo_parser` on the same input, entry point and limits.
+fn reached_history(ctx: &mut Ctx, steps: &[(u8, String)], rl: usize, tl: Option<usize>) {
+    let mut cp = apollo_compiler::parser::Parser::new().recursion_limit(rl);
+    if let Some(t) = tl { cp = cp.token_limit(t); }
+    let schema = apollo_compiler::Schema::parse_and_validate("type Query { a: Query b(x: [[Int]]): Int }", "s.graphql").unwrap();
+    let mut log = vec![];
+    for (kind, src) in steps {
+        let entry = match kind { 0 => "doc", 1 => "type", _ => "sel" };
+        let ok = catch(|| match kind {
+            0 => { let _ = cp.parse_ast(src.as_str(), "d.graphql"); }
+            1 => { let _ = cp.parse_type(src.as_str(), "t.graphql"); }
+            _ => { let _ = cp.parse_field_set(&schema, apollo_compiler::name!("Query"), src.as_str(), "f.graphql"); }
+        });
+        log.push(format!("{entry}:{src:?}"));
+        let desc = format!("rl={rl} tl={tl:?} history: {}", log.join(" ; "));
+        if let Err(m) = ok { ctx.fail("compiler-parse-panic", &desc, &m); return; }
+        let Ok(p) = run_parser(entry, tl, rl, src) else { return };
+        if cp.recursion_reached() != p.rec_high || cp.tokens_reached() != p.tok_high {
+            ctx.fail("compiler-reached-figures", &desc, &format!("after the last call the compiler reports ({}, {}), the parser's high-water marks for that call are ({}, {})", cp.recursion_reached(), cp.tokens_reached(), p.rec_high, p.tok_high));
+            return;
+        }
+        ctx.stat("reached_history_steps");
+    }
+}
+
 pub fn run(ctx: &mut Ctx) {
+    {
+        let docs = ["{ a { b { c { d(x: [[1]]) } } } }", "{ a }", "", "type T { f: [[Int]] }", "{ a { b { c } } } # trailing comment", "query($v: [Int] = [1, [2]]) { a }", "\"", "{ a(x: {k: {l: 1}}) }"];
+        let types = ["Int", "[[[Int!]]!]", "[", "Int ] ]", ""];
+        let sels = ["a", "a { a { a { a } } }", "b(x: [[1]])", "{ a }", "a {"];
+        let n = if ctx.thorough { 6000 } else { 600 };
+        for i in 0..n {
+            let len = 2 + ctx.rng.below(4);
+            let steps: Vec<(u8, String)> = (0..len).map(|_| match ctx.rng.below(4) { 0 | 1 => (0u8, ctx.rng.pick(&docs).to_string()), 2 => (1u8, ctx.rng.pick(&types).to_string()), _ => (2u8, ctx.rng.pick(&sels).to_string()) }).collect();
+            let rl = if i % 2 == 0 { ctx.rng.below(5) } else { 500 };
+            let tl = if i % 3 == 0 { Some(ctx.rng.below(12)) } else { None };
+            reached_history(ctx, &steps, rl, tl);
+        }
+        // every ordered pair of the fixed documents with default limits
+        for a in docs { for b in docs { reached_history(ctx, &[(0, a.to_string()), (0, b.to_string())], 500, None); } }
+    }
     for s in ["{ a { b { c } } }", "{ a(x: [[1, [2]], {k: {l: [3]}}]) }", "query($v: [[Int!]]! = [[1]]) { a }", "type Query { field(arg1: Int, arg2: Int): Int }",
               "{ a ...F ... on T { b } }", "\"", "{ a", "é", "", "{a(x:{a:{b:{c:1}}})}", "{a(x:[[[]]])}"] { limits_for(ctx, s); }
     let mut seqs = vec![];
